@@ -29,7 +29,10 @@ RULE = ('three lock-step case kinds. single: histories over Req/OpenPool/Start/C
         'SingletonPoolSink with a mock provider (exhaustive over a 13-label alphabet to depth 3 (quick) / 4 (thorough) and over its 9 core labels to depth 4 / 5, '
         'scenario templates with k = 1..6 concurrent first requests resumed in every rotation/reversal, seeded random '
         'histories of 4..40 labels incl. create failures, faults of old sinks, resumes of unknown/blocked tasks, connections '
-        'that report Busy, and every history over 8 labels to depth 3 / 4 after a connection became Busy); '
+        'that report Busy, and every history over 8 labels to depth 3 / 4 after a connection became Busy; sinks whose Open() '
+        'completes or fails synchronously inside the call (11 labels to depth 3); a consumer that reacts to the pool\'s fault '
+        'signal from inside the notification with Close() / a request / Open(); histories of 120 labels; every case runs a '
+        'second instance with a fixed history in the same process); '
         'ref: every Open/Close sequence up to length 9 (quick) / 12 (thorough) and every Open/Close/Fault sequence (underlying sink '
         'reports Closed while holders are alive) up to length 7 / 9, every Open/Close sequence up to length 7 / 9 issued in 5 '
         'groupings of concurrent callers against an underlying sink whose Open/Close yield before and after their work '
@@ -184,6 +187,7 @@ def _make_mocks():
       self.sid = sid
       self.st = CS.Idle
       self.res = None
+      self.mode = 'idle'
 
     @property
     def state(self):
@@ -191,6 +195,11 @@ def _make_mocks():
 
     def Open(self):
       self.w.ev(['openu', self.sid])
+      if self.st == CS.Idle and self.mode in ('opennow', 'failnow') and self.res is None:
+        # the open completes inside the call: the sink reports Open (or Closed, without a fault signal) at once
+        self.st = CS.Open if self.mode == 'opennow' else CS.Closed
+        self.res = OpenResult(self.w, True, self.mode == 'failnow')
+        return self.res
       if self.st == CS.Idle:
         if self.res is None:
           self.res = OpenResult(self.w)
@@ -299,7 +308,7 @@ class World(object):
     self.waiting = {}
     self.wait_order = []
     self.cur_task = None
-    self.fail_create = False
+    self.create_mode = 'idle'
     self.nopen = 0
     self.yielding = False
     self.slow = (0, 0)      # yields before the work of the underlying Open / Close (when yielding)
@@ -328,96 +337,198 @@ def _sel(sel, seq):
   return seq[len(seq) - 1 - (sel[1] % len(seq))]
 
 
-def run_single(case):
-  g = _S['gevent']
+MODES = {'idle': 'CIdle', 'fail': 'CFail', 'opennow': 'COpenNow', 'failnow': 'CFailNow'}
+
+
+def _mode(x):
+  """What the provider / the new sink do if this step creates a sink (False/True are the old spellings of idle/fail)."""
+  if x is True:
+    return 'fail'
+  if not x:
+    return 'idle'
+  assert x in MODES, x
+  return x
+
+
+def _make_pool(w):
   CS = _S['ChannelState']
-  w = World()
 
   class Provider(object):
     def CreateSink(self, properties):
-      if w.fail_create:
+      if w.create_mode == 'fail':
         raise Exception('create failed')
       live = sum(1 for s in w.sinks if s.st != CS.Closed)
       s = _S['MockSink'](w, len(w.sinks))
+      s.mode = w.create_mode
       w.sinks.append(s)
       w.ev(['create', s.sid, live])
       return s
 
   props = {_S['SinkProperties'].Endpoint: _Endpoint(), _S['SinkProperties'].Label: 'c16'}
-  pool = _S['SingletonPoolSink'](Provider(), None, props)
-  pool.on_faulted.Subscribe(lambda v: w.ev(['poolfault']))
+  return _S['SingletonPoolSink'](Provider(), None, props)
+
+
+def _request(pool, w, term, cid):
+  stack = _S['ClientMessageSinkStack']()
+  stack.Push(term, cid)
+  msg = _S['MethodCallMessage'](None, 'm', (cid,), {})
+  try:
+    pool.AsyncProcessRequest(stack, msg, None, None)
+  except Exception as e:
+    w.ev(['crash', cid, type(e).__name__])
+
+
+class _ShadowPool(object):
+  """A second SingletonPoolSink living in the same process with a fixed little history wrapped around the case:
+  nothing the case does to its own pool may show up here (no class-level / module-level state)."""
+  EXPECT = [['create', 0, 0], ['openu', 0], ['openu', 0], ['fwd', 0, 0], ['fwd', 1, 0], ['fwd', 2, 0], ['closeu', 0]]
+
+  def __init__(self):
+    self.w = World()
+    self.pool = _make_pool(self.w)
+    self.term = _S['Terminal'](self.w)
+    self.gs = []
+
+  def _req(self, cid):
+    self.w.cur_task = cid
+    gr = _S['gevent'].spawn(_request, self.pool, self.w, self.term, cid)
+    self.w.task_of[gr] = cid
+    self.gs.append(gr)
+    settle(2)
+
+  def begin(self):
+    self._req(0)
+    self._req(1)
+
+  def end(self):
+    w = self.w
+    try:
+      if w.sinks:
+        w.sinks[0].complete_open(True)
+      for t in sorted(w.waiting):
+        w.waiting.pop(t)[1].set()
+      settle(3)
+      self._req(2)
+      self.pool.Close()
+      settle(2)
+    finally:
+      alive = [x for x in self.gs if not x.dead] + [e[2] for e in w.waiting.values() if not e[2].dead]
+      if alive:
+        _S['gevent'].killall(alive, block=True)
+      w.waiting.clear()
+      w.task_of.clear()
+    return w.take()
+
+
+def run_single(case):
+  g = _S['gevent']
+  CS = _S['ChannelState']
+  w = World()
+  pool = _make_pool(w)
   term = _S['Terminal'](w)
   opens = {}
   labels = []
   steps = []
-  ntask = 0
+  nt = [0]
   greenlets = []
+  split = []            # (step, label) produced by a re-entrant action from inside the fault notification
+  on_fault = case.get('on_fault')
 
-  def do_req(cid):
-    stack = _S['ClientMessageSinkStack']()
-    stack.Push(term, cid)
-    msg = _S['MethodCallMessage'](None, 'm', (cid,), {})
-    try:
-      pool.AsyncProcessRequest(stack, msg, None, None)
-    except Exception as e:
-      w.ev(['crash', cid, type(e).__name__])
-
-  def end_step(resumed):
-    w.fail_create = False
+  def make_step(resumed):
+    w.create_mode = 'idle'
     for t in sorted(opens):
       if opens[t].ready():
         w.ev(['openres', t, bool(opens[t].successful())])
         del opens[t]
-    steps.append({'ev': w.take(), 'pstate': int(pool.state), 'resumed': resumed,
-                  'sinks': ''.join({CS.Idle: 'I', CS.Open: 'O', CS.Busy: 'B', CS.Closed: 'C'}.get(s.st, '?') for s in w.sinks)})
+    return {'ev': w.take(), 'pstate': int(pool.state), 'resumed': resumed,
+            'sinks': ''.join({CS.Idle: 'I', CS.Open: 'O', CS.Busy: 'B', CS.Closed: 'C'}.get(s.st, '?') for s in w.sinks)}
 
-  def start(t, fail):
+  def pool_open():
+    t = nt[0]
+    nt[0] += 1
+    w.cur_task = t
+    w.capture = True
+    try:
+      opens[t] = pool.Open()
+    finally:
+      w.capture = False
+    for gr in w.captured:
+      w.spawned[t] = gr
+      w.task_of[gr] = t
+      w.spawn_order.append(t)
+    w.captured = []
+    return t
+
+  def on_pool_fault(v):
+    w.ev(['poolfault'])
+    if on_fault and not split:
+      # the consumer reacts from inside the notification (as a load balancer does): what happened so far is the
+      # fault's own step, what follows is a second label executed re-entrantly right here
+      first = make_step(False)
+      if on_fault == 'close':
+        pool.Close()
+        lab = ['close']
+      elif on_fault == 'open':
+        pool_open()
+        lab = ['openpool']
+      else:
+        t = nt[0]
+        nt[0] += 1
+        w.cur_task = t
+        lab = ['req', 'idle']
+        split.append((first, lab))
+        _request(pool, w, term, t)       # may park this (notification) greenlet at Open().wait()
+        return
+      split.append((first, lab))
+  pool.on_faulted.Subscribe(on_pool_fault)
+
+  def start(t, mode):
     gr = w.spawned.pop(t, None)
     if gr is not None:
       w.cur_task = t
-      w.fail_create = fail
+      w.create_mode = mode
       greenlets.append(gr)
       gr.start()
     settle()
-    labels.append(['start', t, fail])
+    labels.append(['start', t, mode])
 
+  def env_label(lab):
+    settle()
+    labels.append(lab)
+    if split:
+      first, lab2 = split.pop()
+      steps.append(first)
+      labels.append(lab2)
+
+  shadow = _ShadowPool() if case.get('shadow', True) else None
+  shadow_ev = None
   _CUR[0] = w
   try:
+    if shadow:
+      shadow.begin()
     for op in case['ops']:
       k = op[0]
       resumed = False
       if k == 'req':
-        t = ntask
-        ntask += 1
+        t = nt[0]
+        nt[0] += 1
         w.cur_task = t
-        w.fail_create = bool(op[1])
-        gr = g.spawn(do_req, t)
+        w.create_mode = _mode(op[1])
+        gr = g.spawn(_request, pool, w, term, t)
         w.task_of[gr] = t
         greenlets.append(gr)
         settle()
-        labels.append(['req', bool(op[1])])
+        labels.append(['req', _mode(op[1])])
       elif k in ('open', 'open_defer'):
-        t = ntask
-        ntask += 1
-        w.cur_task = t
-        w.capture = True
-        try:
-          opens[t] = pool.Open()
-        finally:
-          w.capture = False
-        for gr in w.captured:
-          w.spawned[t] = gr
-          w.task_of[gr] = t
-          w.spawn_order.append(t)
-        w.captured = []
+        t = pool_open()
         settle()
         labels.append(['openpool'])
         if k == 'open':          # the spawned greenlet starts right away: a second label
-          end_step(False)
-          start(t, bool(op[1]))
+          steps.append(make_step(False))
+          start(t, _mode(op[1]))
       elif k == 'start':
         order = [x for x in w.spawn_order if x in w.spawned]
-        start(_sel(op[1], list(reversed(order))), bool(op[2]))
+        start(_sel(op[1], list(reversed(order))), _mode(op[2]))
       elif k == 'close':
         pool.Close()
         settle()
@@ -426,14 +537,12 @@ def run_single(case):
         n = _sel(op[1], list(range(len(w.sinks))))
         if 0 <= n < len(w.sinks):
           w.sinks[n].complete_open(bool(op[2]))
-        settle()
-        labels.append(['opendone', n, bool(op[2])])
+        env_label(['opendone', n, bool(op[2])])
       elif k == 'fault':
         n = _sel(op[1], list(range(len(w.sinks))))
         if 0 <= n < len(w.sinks):
           w.sinks[n].kill(True)
-        settle()
-        labels.append(['fault', n])
+        env_label(['fault', n])
       elif k == 'busy':
         n = _sel(op[1], list(range(len(w.sinks))))
         if 0 <= n < len(w.sinks):
@@ -452,7 +561,10 @@ def run_single(case):
         labels.append(['resume', t])
       else:
         raise ValueError(k)
-      end_step(resumed)
+      steps.append(make_step(resumed))
+    if shadow:
+      _CUR[0] = None
+      shadow_ev = shadow.end()
   finally:
     _CUR[0] = None
     w.spawned.clear()
@@ -461,7 +573,10 @@ def run_single(case):
       g.killall(alive, block=True)
     w.waiting.clear()
     w.task_of.clear()
-  return {'labels': labels, 'steps': steps}
+  out = {'labels': labels, 'steps': steps}
+  if shadow:
+    out['shadow'] = 'ok' if shadow_ev == _ShadowPool.EXPECT else shadow_ev
+  return out
 
 
 def run_ref(case):
@@ -473,6 +588,11 @@ def run_ref(case):
   under = _S['RecSink'](w)
   under.track = True       # the mock reports Open after Open(), Closed after Close() or a fault
   rc = _S['RefCountedSink'](under)
+  # a second, independent ref-counted sink with a fixed history wrapped around the case
+  w2 = World()
+  rc2 = _S['RefCountedSink'](_S['RecSink'](w2))
+  r2 = rc2.Open()
+  w2.ev(['ret', getattr(r2, 'name', -1) if r2 is not None else None])
   term = _S['Terminal'](w)
   ops = case['ops']
   per_op = [[] for _ in ops]
@@ -528,10 +648,17 @@ def run_ref(case):
     chrono.append([])
   w.task_of.clear()
   sizes = [z for z in sizes if z > 0]
-  return {'ops_ev': per_op, 'chrono': chrono[:len(sizes)], 'sizes': sizes}
+  r2 = rc2.Open()
+  w2.ev(['ret', getattr(r2, 'name', -1) if r2 is not None else None])
+  rc2.Close()
+  w2.ev(['-'])
+  rc2.Close()
+  rc2.Close()
+  sh2 = w2.take()
+  return {'ops_ev': per_op, 'chrono': chrono[:len(sizes)], 'sizes': sizes, 'shadow': 'ok' if sh2 == REF_SHADOW else sh2}
 
 
-_KEYS = {0: None, -1: '', -2: 0, 1: 'a', 2: 'b', 3: ('h', 9092)}
+_KEYS = {0: None, -1: '', -2: 0, -3: (), -4: False, -5: 0.0, 1: 'a', 2: 'b', 3: ('h', 9092)}
 
 
 def run_shared(case):
@@ -550,14 +677,34 @@ def run_shared(case):
 
   prov = _S['SharedSinkProvider'](lambda p: p['key'])
   prov.next_provider = Next()
+  # a second provider (its own cache): the same keys there must yield its own sinks, never this provider's
+  w2 = World()
+  made2 = []
+
+  class Next2(object):
+    sink_class = None
+
+    def CreateSink(self, properties):
+      s2 = _S['RecSink'](w2, 1000 + len(made2))
+      made2.append(s2)
+      return s2
+  prov2 = _S['SharedSinkProvider'](lambda p: p['key'])
+  prov2.next_provider = Next2()
+  held2 = [prov2.CreateSink({'key': _KEYS[kk]}) for kk in (1, 2, 3)]
   holders = {}
   do_gc = bool(case.get('gc'))
   if do_gc:
     gc.freeze()         # collections during this case look only at objects created from here on
   try:
-    return _run_shared_ops(case, w, prov, holders, do_gc, made)
+    out = _run_shared_ops(case, w, prov, holders, do_gc, made)
+    again = [prov2.CreateSink({'key': _KEYS[kk]}) for kk in (1, 2, 3)]
+    out['shadow'] = {'same': [a is b for a, b in zip(held2, again)], 'created': len(made2),
+                     'foreign': [getattr(getattr(a, 'next_sink', None), 'sid', -1) < 1000 for a in again]}
+    del again
+    return out
   finally:
     holders.clear()
+    del held2[:]
     if do_gc:
       gc.unfreeze()
 
@@ -632,12 +779,19 @@ LAST = ['rel', 0]
 CORE = [['req', False], ['open_defer'], ['start', ['rel', 0], False], ['close'], ['opendone', LAST, True], ['opendone', LAST, False],
         ['fault', LAST], ['resume', ['rel', 0]], ['resume', ['rel', -1]]]
 ALPHA = CORE + [['open', False], ['req', True], ['fault', ['rel', 1]], ['start', ['rel', -1], True]]
+SYNC = [['req', 'opennow'], ['req', 'failnow'], ['req', False], ['open', 'opennow'], ['open', 'failnow'], ['open_defer'], ['start', ['rel', 0], 'opennow'],
+        ['close'], ['fault', LAST], ['resume', ['rel', 0]], ['busy', LAST, True]]
 BUSY = [['req', False], ['opendone', LAST, True], ['resume', ['rel', 0]], ['busy', LAST, True], ['busy', LAST, False], ['fault', LAST], ['close'],
         ['open', False]]
 
 
+def _rmode(r):
+  x = r.random()
+  return 'fail' if x < 0.08 else 'opennow' if x < 0.2 else 'failnow' if x < 0.28 else 'idle'
+
+
 def _rand_single(r):
-  n = r.choice([4, 6, 8, 12, 16, 24, 40])
+  n = r.choice([4, 6, 8, 12, 16, 24, 40, 40, 120])
   prof = r.choice(['mixed', 'mixed', 'burst', 'faulty', 'closey'])
   ops = []
   for _ in range(n):
@@ -653,13 +807,13 @@ def _rand_single(r):
       continue
     y = r.random()
     if y < 0.27:
-      ops.append(['req', r.random() < 0.08])
+      ops.append(['req', _rmode(r)])
     elif y < 0.32:
-      ops.append(['open', r.random() < 0.1])
+      ops.append(['open', _rmode(r)])
     elif y < 0.35:
       ops.append(['open_defer'])
     elif y < 0.39:
-      ops.append(['start', r.choice([['rel', 0], ['rel', 0], ['rel', -1], r.randrange(0, 12)]), r.random() < 0.1])
+      ops.append(['start', r.choice([['rel', 0], ['rel', 0], ['rel', -1], r.randrange(0, 12)]), _rmode(r)])
     elif y < 0.46:
       ops.append(['close'])
     elif y < 0.5:
@@ -670,7 +824,11 @@ def _rand_single(r):
       ops.append(['fault', r.choice([LAST, LAST, ['rel', 1], ['rel', 2], r.randrange(0, 6)])])
     else:
       ops.append(['resume', r.choice([['rel', 0], ['rel', 0], ['rel', -1], ['rel', r.randrange(0, 5)], r.randrange(0, 12)])])
-  return {'kind': 'single', 'ops': ops}
+  c = {'kind': 'single', 'ops': ops}
+  x = r.random()
+  if x < 0.45:
+    c['on_fault'] = r.choice(['close', 'req', 'open'])
+  return c
 
 
 def _templates():
@@ -759,7 +917,7 @@ def _rand_shared(r):
       else:
         ops.append(['hopen', r.choice([['rel', 0], ['rel', r.randrange(0, 5)], r.randrange(0, 10)])])
     elif x < 0.7:
-      ops.append(['create', r.choice([1, 1, 2, 2, 3, 0, -1, -2])])
+      ops.append(['create', r.choice([1, 1, 2, 2, 3, 1, 2, 3, 0, -1, -2, -3, -4, -5])])
     else:
       ops.append(['drop', r.choice([['rel', r.randrange(0, 6)], ['rel', 0], r.randrange(0, 10)])])
   return {'kind': 'shared', 'ops': ops, 'gc': r.random() < 0.5}
@@ -790,6 +948,19 @@ def gen_cases(tier, seed):
     for combo in itertools.product(range(len(BUSY)), repeat=d):
       if any(BUSY[i][0] == 'busy' for i in combo):
         out.append({'kind': 'single', 'ops': [['req', False], ['opendone', 0, True], ['resume', 0]] + [BUSY[i] for i in combo]})
+  # sinks whose Open() completes (or fails) inside the call, mixed with the asynchronous kind
+  for d in range(1, 3 + 1):
+    for combo in itertools.product(range(len(SYNC)), repeat=d):
+      if any(len(SYNC[i]) > 1 and SYNC[i][-1] in ('opennow', 'failnow') for i in combo):
+        out.append({'kind': 'single', 'ops': [SYNC[i] for i in combo]})
+  # the consumer reacts to the pool's fault signal from inside the notification: Close() / a new request / Open()
+  for react in ('close', 'req', 'open'):
+    for pre in ([['req', False]], [['req', False], ['opendone', 0, True], ['resume', 0]], [['open', False], ['req', False]],
+                [['open', False], ['opendone', 0, True], ['resume', 0], ['open', False]], [['req', 'opennow']]):
+      for kill in ([['fault', LAST]], [['opendone', LAST, False]]):
+        for post in ([['req', False]], [['resume', ['rel', 0]], ['resume', ['rel', 0]], ['req', False]], [['start', ['rel', 0], False], ['req', 'opennow']],
+                     [['close'], ['req', False], ['fault', LAST], ['req', False]]):
+          out.append({'kind': 'single', 'on_fault': react, 'ops': pre + kill + post})
   # RefCountedSink: every Open/Close sequence (the holder does not matter to the code; it matters to the monitor)
   for d in range(1, (9 if quick else 12) + 1):
     for j, combo in enumerate(itertools.product((0, 1), repeat=d)):
@@ -839,6 +1010,8 @@ def search_cases(tier, seed, diverging):
 # ---------------------------------------------------------------------------------------------
 def _mon_single(case, obs):
   v = []
+  if 'shadow' in obs and obs['shadow'] != 'ok':
+    v.append(('instances-not-independent', 'a second pool in the same process saw %s instead of %s' % (obs['shadow'], _ShadowPool.EXPECT)))
   labels = obs['labels']
   steps = obs['steps']
   issued = {}          # request task -> index of its Req step
@@ -890,7 +1063,7 @@ def _mon_single(case, obs):
           v.append(('dead-sink-used', 'step %d %s: request %s (issued at step %d) forwarded to sink %s which was already closed then' %
                     (i, lab, c, issued[c], s)))
     if lab[0] == 'req':
-      if not live_before and not lab[1]:
+      if not live_before and _mode(lab[1]) != 'fail':
         # replacement after a failure / first use: exactly one fresh connection
         if len(creates) != 1:
           v.append(('no-replacement', 'step %d: request %d arrived with no live connection (sinks %r) and %d sinks were created' %
@@ -907,8 +1080,13 @@ def _mon_single(case, obs):
   return v
 
 
+REF_SHADOW = [['uopen', 0], ['ret', 0], ['ret', 0], ['-'], ['uclose']]
+
+
 def _mon_ref(case, obs):
   v = []
+  if obs.get('shadow') != 'ok':
+    v.append(('instances-not-independent', 'a second RefCountedSink in the same process saw %s instead of %s' % (obs.get('shadow'), REF_SHADOW)))
   n = 0                 # holders according to the history (a close when nobody holds is surplus)
   opens = closes = 0
   last_open = None
@@ -977,9 +1155,15 @@ def _mon_ref(case, obs):
   return v
 
 
+SHARED_SHADOW = {'same': [True, True, True], 'created': 3, 'foreign': [False, False, False]}
+
+
 def _mon_shared(case, obs):
   v = []
+  if obs.get('shadow') != SHARED_SHADOW:
+    v.append(('instances-not-independent', 'a second SharedSinkProvider in the same process: %s instead of %s' % (obs.get('shadow'), SHARED_SHADOW)))
   k = 0
+  made_here = set()
   holders = {}          # ref -> (key, sink id, wrapped)
   for op, stp in zip(case['ops'], obs['steps']):
     if op[0] == 'create':
@@ -987,6 +1171,9 @@ def _mon_shared(case, obs):
       ret = [e for e in stp['ev'] if e[0] == 'ret'][0]
       under = [e for e in stp['ev'] if e[0] == 'under']
       n, wrapped = ret[1], ret[2]
+      made_here.update(e[1] for e in under)
+      if n not in made_here:
+        v.append(('instances-not-independent', 'op %d: key %s returned sink %s which this provider\'s next_provider never created' % (k, key, n)))
       if key > 0:
         alive = [r for r, (kk, s, wr) in holders.items() if kk == key]
         if alive:
@@ -1026,11 +1213,11 @@ def _nat(n):
 def _single_label(l):
   k = l[0]
   if k == 'req':
-    return 'Req %s' % C.blit(l[1])
+    return 'Req %s' % MODES[_mode(l[1])]
   if k == 'openpool':
     return 'OpenPool'
   if k == 'start':
-    return 'Start %s %s' % (_nat(l[1]), C.blit(l[2]))
+    return 'Start %s %s' % (_nat(l[1]), MODES[_mode(l[2])])
   if k == 'close':
     return 'ClosePool'
   if k == 'opendone':
@@ -1133,7 +1320,7 @@ def stats(cases, obs):
                       'open_counted_only', 'open_spawns_greenlet', 'start_share_result', 'start_unknown_or_started', 'resume_forward_live', 'resume_forward_closed_or_opening', 'resume_crash_none',
                       'resume_open_result', 'resume_blocked_or_unknown', 'close_underlying', 'close_counted_only',
                       'fault_propagated', 'fault_unsubscribed_or_noop', 'opendone_ok', 'opendone_noop', 'busy_toggled', 'busy_noop',
-                      'get_share_forward_busy'], 0)
+                      'get_share_forward_busy', 'create_open_now', 'create_fail_now', 'reentrant_reaction_to_fault'], 0)
   maxwait = 0
   ref = dict.fromkeys(['open_first', 'open_shared', 'close_last', 'close_not_last', 'close_surplus', 'request', 'env_closed_while_held', 'env_other', 'last_close_after_fault',
                        'concurrent_groups', 'yielding_cases'], 0)
@@ -1146,11 +1333,15 @@ def stats(cases, obs):
       w = 0
       ppstate = 1
       prev = ''
+      if c.get('on_fault'):
+        br['reentrant_reaction_to_fault'] += sum(1 for s_ in o['steps'] if 'poolfault' in [e[0] for e in s_['ev']])
       for lab, s in zip(o['labels'], o['steps']):
         labs[lab[0]] = labs.get(lab[0], 0) + 1
         names = [e[0] for e in s['ev']]
         for nme in names:
           evs[nme] = evs.get(nme, 0) + 1
+        if lab[0] in ('req', 'start') and 'create' in names and _mode(lab[-1]) in ('opennow', 'failnow'):
+          br['create_open_now' if _mode(lab[-1]) == 'opennow' else 'create_fail_now'] += 1
         if lab[0] == 'openpool':
           br['open_counted_only' if names == ['openres'] else 'open_spawns_greenlet'] += 1
         elif lab[0] in ('req', 'start'):
